@@ -1,4 +1,4 @@
-import FastraceModel.Lemmas.Flow
+import FastraceModel.Lemmas.Fifo
 
 /-!
 The channel invariant `ChanInv` and the step relation `Step` for every state helper of
@@ -54,17 +54,21 @@ structure Step (s s' : Sys) : Prop where
   consumed : s'.g.consumed = s.g.consumed
   reported : s'.g.reported = s.g.reported
   discarded : s'.g.discarded = s.g.discarded
+  fifo : FifoInv s → FifoInv s'
 
-theorem Step.refl (s : Sys) : Step s s := ⟨id, rfl, rfl, rfl, rfl⟩
+theorem Step.refl (s : Sys) : Step s s := ⟨id, rfl, rfl, rfl, rfl, id⟩
 
 theorem Step.trans {a b c : Sys} (h1 : Step a b) (h2 : Step b c) : Step a c :=
   ⟨fun h => h2.chan (h1.chan h), h2.coll.trans h1.coll, h2.consumed.trans h1.consumed, h2.reported.trans h1.reported,
-   h2.discarded.trans h1.discarded⟩
+   h2.discarded.trans h1.discarded, fun h => h2.fifo (h1.fifo h)⟩
 
 /-- a change that touches neither the channels nor the collector nor the history -/
 theorem Step.of_fields {s s' : Sys} (h1 : s'.cyc = s.cyc) (h2 : s'.rxs = s.rxs) (h3 : s'.threads = s.threads)
     (h4 : s'.deferred = s.deferred) (h5 : s'.g = s.g) (h6 : s'.coll = s.coll) (h7 : s'.carried = s.carried) : Step s s' := by
-  refine ⟨fun h => ⟨?_, ?_, ?_, ?_⟩, h6, by rw [h5], by rw [h5], by rw [h5]⟩
+  have hth : ∀ t, s'.th t = s.th t := by intro t; unfold Sys.th; rw [h3]
+  have hro : ∀ t, s'.ringOf t = s.ringOf t := by intro t; unfold Sys.ringOf; rw [h1, h2]
+  have hrk : s'.ringKeys = s.ringKeys := by unfold Sys.ringKeys; rw [h1, h2]
+  refine ⟨fun h => ⟨?_, ?_, ?_, ?_⟩, h6, by rw [h5], by rw [h5], by rw [h5], fun h => ⟨?_, ?_, ?_⟩⟩
   · intro w hw
     have := h.cons w hw
     unfold Sys.flow at this ⊢
@@ -75,9 +79,37 @@ theorem Step.of_fields {s s' : Sys} (h1 : s'.cyc = s.cyc) (h2 : s'.rxs = s.rxs) 
     rw [h1] at hcs
     exact h.wf cs hcs
   · rw [h5]; exact h.lost
+  · intro t ha
+    rw [hth] at ha ⊢
+    unfold Sys.ringQ
+    rw [hro, h5]
+    exact h.order t ha
+  · rw [hrk]; exact h.nodup
+  · intro t ht
+    rw [hrk] at ht
+    rw [hth]
+    exact h.reg t ht
 
-theorem Step.setTh {s : Sys} (t : Nat) (th' : Th) (h : th'.pending = (s.th t).pending) : Step s (s.setTh t th') := by
-  refine ⟨fun hc => ⟨?_, ?_, hc.wf, hc.lost⟩, rfl, rfl, rfl, rfl⟩
+theorem Step.setTh {s : Sys} (t : Nat) (th' : Th) (h : th'.pending = (s.th t).pending)
+    (ha : th'.alive = (s.th t).alive := by rfl) (hr : th'.registered = (s.th t).registered := by rfl) :
+    Step s (s.setTh t th') := by
+  refine ⟨fun hc => ⟨?_, ?_, hc.wf, hc.lost⟩, rfl, rfl, rfl, rfl, fun hf => ⟨?_, hf.nodup, ?_⟩⟩
+  rotate_left 2
+  · intro t2 hal
+    by_cases e : t2 = t
+    · subst e
+      rw [Sys.th_setTh_same] at hal ⊢
+      rw [h]
+      exact hf.order t2 (by rw [← ha]; exact hal)
+    · rw [Sys.th_setTh_other _ _ _ _ e] at hal ⊢
+      exact hf.order t2 hal
+  · intro t2 ht2
+    by_cases e : t2 = t
+    · subst e
+      rw [Sys.th_setTh_same, hr]
+      exact hf.reg t2 ht2
+    · rw [Sys.th_setTh_other _ _ _ _ e]
+      exact hf.reg t2 ht2
   · intro w hw
     rw [Sys.setTh_flow_same w s t th' h]
     exact hc.cons w hw
@@ -90,7 +122,7 @@ theorem Step.setTh {s : Sys} (t : Nat) (th' : Th) (h : th'.pending = (s.th t).pe
 
 theorem Step.putCtr {s : Sys} (t : Nat) (c : Ctr) : Step s (s.putCtr t c) := by
   unfold Sys.putCtr
-  exact (Step.setTh (s := s) t { s.th t with suffix := c.suffix } rfl).trans (Step.of_fields rfl rfl rfl rfl rfl rfl rfl)
+  exact (Step.setTh (s := s) t { s.th t with suffix := c.suffix } rfl rfl rfl).trans (Step.of_fields rfl rfl rfl rfl rfl rfl rfl)
 
 theorem Step.withSpans {s : Sys} (x : List (String × SpanVal)) : Step s { s with spans := x } :=
   Step.of_fields rfl rfl rfl rfl rfl rfl rfl
@@ -173,18 +205,157 @@ theorem Sys.setRing_coll (s : Sys) (t : Nat) (r : Ring Cmd) : (s.setRing t r).co
     · split <;> rfl
 
 /-- a command whose sender is blocked or orphaned changes only the `blocked` / `orphaned` logs -/
-theorem Step.withG_side {s : Sys} (g : Ghost) (h1 : g.accepted = s.g.accepted) (h2 : g.consumed = s.g.consumed)
-    (h3 : g.discarded = s.g.discarded) (h4 : g.lostAtExit = s.g.lostAtExit) (h5 : g.reported = s.g.reported) :
-    Step s (s.withG g) := by
-  refine ⟨fun h => ⟨?_, h.sig, h.wf, by rw [Sys.withG_g, h4]; exact h.lost⟩, rfl, h2, h5, h3⟩
+theorem ChanInv.withG_side {s : Sys} (h : ChanInv s) (g : Ghost) (h1 : g.accepted = s.g.accepted) (h2 : g.consumed = s.g.consumed)
+    (h3 : g.discarded = s.g.discarded) (h4 : g.lostAtExit = s.g.lostAtExit) : ChanInv (s.withG g) := by
+  refine ⟨?_, h.sig, h.wf, by rw [Sys.withG_g, h4]; exact h.lost⟩
   intro w hw
   have := h.cons w hw
   simp only [Sys.withG_g, Sys.withG_flow, Ghost.out, h1, h2, h3, h4] at this ⊢
   exact this
 
+theorem FifoInv.withG_side {s : Sys} (h : FifoInv s) (g : Ghost) (h6 : g.acceptedBy = s.g.acceptedBy)
+    (h7 : g.drainedBy = s.g.drainedBy) : FifoInv (s.withG g) := by
+  refine ⟨?_, h.nodup, h.reg⟩
+  intro t ha
+  have := h.order t ha
+  show (byT t g.acceptedBy).reverse = (byT t g.drainedBy).reverse ++ s.ringQ t ++ (s.th t).pending
+  rw [h6, h7]
+  exact this
+
+theorem Step.withG_side {s : Sys} (g : Ghost) (h1 : g.accepted = s.g.accepted) (h2 : g.consumed = s.g.consumed)
+    (h3 : g.discarded = s.g.discarded) (h4 : g.lostAtExit = s.g.lostAtExit) (h5 : g.reported = s.g.reported)
+    (h6 : g.acceptedBy = s.g.acceptedBy := by rfl) (h7 : g.drainedBy = s.g.drainedBy := by rfl) :
+    Step s (s.withG g) :=
+  ⟨fun h => h.withG_side g h1 h2 h3 h4, rfl, h2, h5, h3, fun h => h.withG_side g h6 h7⟩
+
+theorem orElse_none' {α : Type} (o : Option α) : (o.orElse fun _ => none) = o := by cases o <;> rfl
+
+/-- first use of a thread's channel: an empty ring is added under a key that was not there -/
+theorem FifoInv.register {s s1 : Sys} (h : FifoInv s) (t : Nat) (hreg : s.register t = some s1) : FifoInv s1 := by
+  unfold Sys.register at hreg
+  split at hreg
+  · cases hreg; exact h
+  · rename_i hnr
+    have hnk : t ∉ s.ringKeys := by
+      intro hk
+      exact hnr (h.reg t hk)
+    have hth : ∀ t2, ((s.setTh t { s.th t with registered := true }).th t2).alive = (s.th t2).alive ∧
+        ((s.setTh t { s.th t with registered := true }).th t2).pending = (s.th t2).pending ∧
+        ((s.th t2).registered = true → ((s.setTh t { s.th t with registered := true }).th t2).registered = true) := by
+      intro t2
+      by_cases e : t2 = t
+      · subst e; rw [Sys.th_setTh_same]; exact ⟨rfl, rfl, fun _ => rfl⟩
+      · rw [Sys.th_setTh_other _ _ _ _ e]; exact ⟨rfl, rfl, id⟩
+    have hq0 : s.ringQ t = [] := by
+      unfold Sys.ringQ; rw [Sys.ringOf_none_of_not_mem s t hnk]; rfl
+    cases hc : s.cyc with
+    | none =>
+      rw [hc] at hreg
+      simp only [Option.some.injEq] at hreg
+      subst hreg
+      have hk : Sys.ringKeys ({ (s.setTh t { s.th t with registered := true }) with rxs := s.rxs ++ [(t, Ring.new Consts.ringCap)] } : Sys)
+          = s.ringKeys ++ [t] := by
+        unfold Sys.ringKeys
+        show (match s.cyc with | none => _ | some cs => _) = (match s.cyc with | none => _ | some cs => _) ++ [t]
+        rw [hc]; simp
+      have hro : ∀ t2, Sys.ringQ ({ (s.setTh t { s.th t with registered := true }) with rxs := s.rxs ++ [(t, Ring.new Consts.ringCap)] } : Sys) t2
+          = s.ringQ t2 := by
+        intro t2
+        unfold Sys.ringQ Sys.ringOf
+        show ((match s.cyc with | none => natGet (s.rxs ++ [(t, Ring.new Consts.ringCap)]) t2 | some cs => _).map (fun r : Ring Cmd => r.q)).getD [] =
+          ((match s.cyc with | none => natGet s.rxs t2 | some cs => _).map (fun r : Ring Cmd => r.q)).getD []
+        rw [hc]
+        dsimp only
+        rw [natGet_append]
+        by_cases e : t2 = t
+        · subst e
+          have : natGet s.rxs t2 = none := by
+            have := Sys.ringOf_none_of_not_mem s t2 hnk
+            unfold Sys.ringOf at this; rw [hc] at this; exact this
+          rw [this]
+          simp [natGet, Ring.new]
+        · have : natGet [(t, Ring.new (α := Cmd) Consts.ringCap)] t2 = none := by
+            have hb : (t == t2) = false := by simp; exact fun x => e x.symm
+            simp [natGet, List.find?, hb]
+          rw [this, orElse_none']
+      refine ⟨?_, ?_, ?_⟩
+      · intro t2 ha
+        rw [hro t2]
+        show _ = _ ++ _ ++ ((s.setTh t { s.th t with registered := true }).th t2).pending
+        rw [(hth t2).2.1]
+        exact h.order t2 (by rw [← (hth t2).1]; exact ha)
+      · rw [hk]
+        exact List.nodup_append.mpr ⟨h.nodup, by simp, by
+          intro a ha b hb
+          simp only [List.mem_singleton] at hb
+          subst hb
+          intro e; subst e; exact hnk ha⟩
+      · intro t2 ht2
+        rw [hk, List.mem_append, List.mem_singleton] at ht2
+        show ((s.setTh t { s.th t with registered := true }).th t2).registered = true
+        rcases ht2 with ht2 | rfl
+        · exact (hth t2).2.2 (h.reg t2 ht2)
+        · rw [Sys.th_setTh_same]
+    | some cs =>
+      rw [hc] at hreg
+      dsimp only at hreg
+      split at hreg
+      · cases hreg
+      · simp only [Option.some.injEq] at hreg
+        subst hreg
+        have hk : Sys.ringKeys ({ (s.setTh t { s.th t with registered := true }) with
+            cyc := some { cs with kept := cs.kept ++ [(t, Ring.new Consts.ringCap)] } } : Sys) = s.ringKeys ++ [t] := by
+          unfold Sys.ringKeys
+          show _ = (match s.cyc with | none => _ | some cs => _) ++ [t]
+          rw [hc]; simp
+        have hro : ∀ t2, Sys.ringQ ({ (s.setTh t { s.th t with registered := true }) with
+            cyc := some { cs with kept := cs.kept ++ [(t, Ring.new Consts.ringCap)] } } : Sys) t2 = s.ringQ t2 := by
+          intro t2
+          unfold Sys.ringQ Sys.ringOf
+          show (((natGet cs.todo t2).orElse fun _ => natGet (cs.kept ++ [(t, Ring.new Consts.ringCap)]) t2).map (fun r : Ring Cmd => r.q)).getD [] =
+            ((match s.cyc with | none => natGet s.rxs t2 | some cs => (natGet cs.todo t2).orElse fun _ => natGet cs.kept t2).map (fun r : Ring Cmd => r.q)).getD []
+          rw [hc]
+          dsimp only
+          rw [natGet_append]
+          by_cases e : t2 = t
+          · subst e
+            have hn : (natGet cs.todo t2).orElse (fun _ => natGet cs.kept t2) = none := by
+              have := Sys.ringOf_none_of_not_mem s t2 hnk
+              unfold Sys.ringOf at this; rw [hc] at this; exact this
+            cases h1 : natGet cs.todo t2 with
+            | some x => rw [h1] at hn; cases hn
+            | none =>
+              rw [h1] at hn
+              simp only [Option.orElse] at hn
+              rw [hn]
+              simp [natGet, Ring.new]
+          · have : natGet [(t, Ring.new (α := Cmd) Consts.ringCap)] t2 = none := by
+              have hb : (t == t2) = false := by simp; exact fun x => e x.symm
+              simp [natGet, List.find?, hb]
+            rw [this, orElse_none']
+        refine ⟨?_, ?_, ?_⟩
+        · intro t2 ha
+          rw [hro t2]
+          show _ = _ ++ _ ++ ((s.setTh t { s.th t with registered := true }).th t2).pending
+          rw [(hth t2).2.1]
+          exact h.order t2 (by rw [← (hth t2).1]; exact ha)
+        · rw [hk]
+          exact List.nodup_append.mpr ⟨h.nodup, by simp, by
+            intro a ha b hb
+            simp only [List.mem_singleton] at hb
+            subst hb
+            intro e; subst e; exact hnk ha⟩
+        · intro t2 ht2
+          rw [hk, List.mem_append, List.mem_singleton] at ht2
+          show ((s.setTh t { s.th t with registered := true }).th t2).registered = true
+          rcases ht2 with ht2 | rfl
+          · exact (hth t2).2.2 (h.reg t2 ht2)
+          · rw [Sys.th_setTh_same]
+
 theorem Step.register {s s1 : Sys} (t : Nat) (hreg : s.register t = some s1) : Step s s1 := by
   obtain ⟨_, g1, c1⟩ := Sys.register_flow (fun _ => 0) s s1 t hreg
-  refine ⟨fun h => ⟨?_, ?_, Sys.register_wf s s1 t hreg h.wf, by rw [g1]; exact h.lost⟩, c1, by rw [g1], by rw [g1], by rw [g1]⟩
+  refine ⟨fun h => ⟨?_, ?_, Sys.register_wf s s1 t hreg h.wf, by rw [g1]; exact h.lost⟩, c1, by rw [g1], by rw [g1], by rw [g1],
+    fun h => h.register t hreg⟩
   · intro w hw
     rw [(Sys.register_flow w s s1 t hreg).1, g1]
     exact h.cons w hw
@@ -222,6 +393,51 @@ theorem ChanInv.afterSend {s1 : Sys} (h : ChanInv s1) (t : Nat) (r r' : Ring Cmd
   · exact Sys.setRing_wf s1 t _ h.wf
   · rw [Sys.withG_g, hl]; exact h.lost
 
+/-- the same replacement, seen per thread: `ring ++ overflow` of thread `t` grows by `added` at the end -/
+theorem FifoInv.afterSend {s1 : Sys} (h : FifoInv s1) (t : Nat) (r r' : Ring Cmd) (th' : Th) (g' : Ghost) (added : List Cmd)
+    (hring : s1.ringOf t = some r)
+    (hseq : r'.q ++ th'.pending = r.q ++ (s1.th t).pending ++ added)
+    (hab : g'.acceptedBy = (added.map fun c => (t, c)).reverse ++ s1.g.acceptedBy) (hdb : g'.drainedBy = s1.g.drainedBy)
+    (hal : th'.alive = (s1.th t).alive) (hrg : th'.registered = (s1.th t).registered) :
+    FifoInv (((s1.setRing t r').setTh t th').withG g') := by
+  refine ⟨?_, ?_, ?_⟩
+  · intro t2 ha
+    rw [Sys.withG_th] at ha
+    show (byT t2 g'.acceptedBy).reverse = (byT t2 g'.drainedBy).reverse ++ Sys.ringQ ((s1.setRing t r').setTh t th') t2
+      ++ (((s1.setRing t r').setTh t th').th t2).pending
+    have hq : Sys.ringQ ((s1.setRing t r').setTh t th') t2 = if t2 = t then r'.q else s1.ringQ t2 := by
+      unfold Sys.ringQ
+      rw [Sys.ringOf_setTh, Sys.ringOf_setRing s1 t t2 r r' hring]
+      split <;> rfl
+    rw [hq, hab, hdb, byT_append, byT_reverse, List.reverse_append, List.reverse_reverse]
+    by_cases e : t2 = t
+    · subst e
+      rw [Sys.th_setTh_same] at ha ⊢
+      have ho := h.order t2 (by rw [← hal]; exact ha)
+      have hr0 : s1.ringQ t2 = r.q := by unfold Sys.ringQ; rw [hring]; rfl
+      rw [hr0] at ho
+      simp only [if_true, byT_tagged_same]
+      have hseq' : (byT t2 s1.g.drainedBy).reverse ++ r'.q ++ th'.pending
+          = (byT t2 s1.g.drainedBy).reverse ++ (r.q ++ (s1.th t2).pending ++ added) := by
+        rw [List.append_assoc, hseq]
+      rw [ho, hseq']
+      simp [List.append_assoc]
+    · rw [Sys.th_setTh_other _ _ _ _ e, Sys.setRing_th] at ha ⊢
+      simp only [e, if_false, byT_tagged_other _ _ _ (fun x => e x.symm), List.reverse_nil, List.append_nil]
+      exact h.order t2 ha
+  · show (Sys.ringKeys ((s1.setRing t r').setTh t th')).Nodup
+    rw [Sys.ringKeys_setTh, Sys.ringKeys_setRing s1 t r r' hring]
+    exact h.nodup
+  · intro t2 ht2
+    have ht2' : t2 ∈ s1.ringKeys := by
+      have : Sys.ringKeys (((s1.setRing t r').setTh t th').withG g') = s1.ringKeys := by
+        rw [Sys.ringKeys_withG, Sys.ringKeys_setTh, Sys.ringKeys_setRing s1 t r r' hring]
+      rw [this] at ht2; exact ht2
+    rw [Sys.withG_th]
+    by_cases e : t2 = t
+    · subst e; rw [Sys.th_setTh_same, hrg]; exact h.reg t2 ht2'
+    · rw [Sys.th_setTh_other _ _ _ _ e, Sys.setRing_th]; exact h.reg t2 ht2'
+
 theorem Step.sendCmd (s : Sys) (t : Nat) (cmd : Cmd) (forced : Bool) (hf : forced = true → cmd.isSignal = true) :
     Step s (s.sendCmd t cmd forced) := by
   unfold Sys.sendCmd
@@ -237,7 +453,11 @@ theorem Step.sendCmd (s : Sys) (t : Nat) (cmd : Cmd) (forced : Bool) (hf : force
       cases forced with
       | true =>
         simp only [if_true]
-        refine ⟨fun h => ?_, ?_, rfl, rfl, rfl⟩
+        refine ⟨fun h => ?_, ?_, rfl, rfl, rfl, fun h => ?_⟩
+        rotate_left 2
+        · refine FifoInv.afterSend h t r _ _ _ [cmd] hring ?_ rfl rfl rfl rfl
+          have := Ring.forceSend_seq r (s1.th t).pending cmd
+          exact this
         · refine ChanInv.afterSend h t r _ _ _ [cmd] hring ?_ rfl rfl rfl rfl ?_
           · intro w
             have := Ring.forceSend_w w r (s1.th t).pending cmd
@@ -250,7 +470,12 @@ theorem Step.sendCmd (s : Sys) (t : Nat) (cmd : Cmd) (forced : Bool) (hf : force
         · simp only [Sys.withG_coll, Sys.setTh_coll, Sys.setRing_coll]
       | false =>
         simp only [Bool.false_eq_true, if_false]
-        refine ⟨fun h => ?_, ?_, ?_, ?_, ?_⟩
+        refine ⟨fun h => ?_, ?_, ?_, ?_, ?_, fun h => ?_⟩
+        rotate_left 5
+        · refine FifoInv.afterSend h t r _ _ _ (if (r.send (s1.th t).pending cmd).2.2 then [cmd] else []) hring ?_ ?_ ?_ rfl rfl
+          · exact Ring.send_seq r (s1.th t).pending cmd
+          · cases hok : (r.send (s1.th t).pending cmd).2.2 <;> simp [hok]
+          · cases hok : (r.send (s1.th t).pending cmd).2.2 <;> simp [hok]
         · refine ChanInv.afterSend h t r _ _ _ (if (r.send (s1.th t).pending cmd).2.2 then [cmd] else []) hring ?_ ?_ ?_ ?_ ?_ ?_
           · intro w
             have := Ring.send_w w r (s1.th t).pending cmd
@@ -371,7 +596,38 @@ theorem Step.exitThread (s : Sys) (t : Nat) : Step s (s.exitThread t) := by
     cases hring : (s1.setTh t { s1.th t with guards := [], alive := false, pending := [] }).ringOf t with
     | some r =>
       dsimp only
-      refine ⟨fun h => ⟨?_, ?_, ?_, ?_⟩, ?_, rfl, rfl, rfl⟩
+      refine ⟨fun h => ⟨?_, ?_, ?_, ?_⟩, ?_, rfl, rfl, rfl, fun hf => ?_⟩
+      rotate_left 5
+      · -- per-thread order: thread `t` is dead now (no claim), the others are untouched
+        have hring0 : s1.ringOf t = some r := hring
+        refine ⟨?_, ?_, ?_⟩
+        · intro t2 ha
+          rw [Sys.withG_th, Sys.setRing_th] at ha
+          by_cases e : t2 = t
+          · subst e; rw [Sys.th_setTh_same] at ha; cases ha
+          · rw [Sys.th_setTh_other _ _ _ _ e] at ha
+            show _ = _ ++ Sys.ringQ (Sys.setRing _ t _) t2 ++ (Sys.th (Sys.setRing _ t _) t2).pending
+            have hq : Sys.ringQ (Sys.setRing (s1.setTh t { s1.th t with guards := [], alive := false, pending := [] }) t
+                (r.senderDrop (s1.th t).pending)) t2 = s1.ringQ t2 := by
+              unfold Sys.ringQ
+              rw [Sys.ringOf_setRing _ t t2 r _ hring]
+              simp only [e, if_false]
+              rfl
+            rw [hq, Sys.setRing_th, Sys.th_setTh_other _ _ _ _ e]
+            exact hf.order t2 ha
+        · show (Sys.ringKeys (Sys.setRing _ t _)).Nodup
+          rw [Sys.ringKeys_setRing _ t r _ hring]
+          exact hf.nodup
+        · intro t2 ht2
+          have : t2 ∈ s1.ringKeys := by
+            have hk : Sys.ringKeys (Sys.setRing (s1.setTh t { s1.th t with guards := [], alive := false, pending := [] }) t
+                (r.senderDrop (s1.th t).pending)) = s1.ringKeys := by
+              rw [Sys.ringKeys_setRing _ t r _ hring]; rfl
+            rw [Sys.ringKeys_withG, hk] at ht2; exact ht2
+          rw [Sys.withG_th, Sys.setRing_th]
+          by_cases e : t2 = t
+          · subst e; rw [Sys.th_setTh_same]; exact hf.reg t2 this
+          · rw [Sys.th_setTh_other _ _ _ _ e]; exact hf.reg t2 this
       · intro w hw
         have e1 := Ring.senderDrop_w w r (s1.th t).pending
         have e2 := Sys.setRing_flow w _ t r (r.senderDrop (s1.th t).pending) hring
@@ -395,7 +651,20 @@ theorem Step.exitThread (s : Sys) (t : Nat) : Step s (s.exitThread t) := by
         rw [Sys.setRing_coll]; rfl
     | none =>
       dsimp only
-      refine ⟨fun h => ⟨?_, ?_, ?_, ?_⟩, rfl, rfl, rfl, rfl⟩
+      refine ⟨fun h => ⟨?_, ?_, ?_, ?_⟩, rfl, rfl, rfl, rfl, fun hf => ?_⟩
+      rotate_left 4
+      · refine ⟨?_, hf.nodup, ?_⟩
+        · intro t2 ha
+          rw [Sys.withG_th] at ha ⊢
+          by_cases e : t2 = t
+          · subst e; rw [Sys.th_setTh_same] at ha; cases ha
+          · rw [Sys.th_setTh_other _ _ _ _ e] at ha ⊢
+            exact hf.order t2 ha
+        · intro t2 ht2
+          rw [Sys.withG_th]
+          by_cases e : t2 = t
+          · subst e; rw [Sys.th_setTh_same]; exact hf.reg t2 ht2
+          · rw [Sys.th_setTh_other _ _ _ _ e]; exact hf.reg t2 ht2
       · intro w hw
         have e3 := Sys.setTh_flow w s1 t { s1.th t with guards := [], alive := false, pending := [] }
         have e4 := h.cons w hw
@@ -414,7 +683,20 @@ theorem Step.exitThread (s : Sys) (t : Nat) : Step s (s.exitThread t) := by
         · exact h.sig' t c hc
         · exact h.lost c hc
   · -- never used the channel (its overflow list is empty, but the accounting does not need to know)
-    refine ⟨fun h => ⟨?_, ?_, h.wf, ?_⟩, rfl, rfl, rfl, rfl⟩
+    refine ⟨fun h => ⟨?_, ?_, h.wf, ?_⟩, rfl, rfl, rfl, rfl, fun hf => ?_⟩
+    rotate_left 3
+    · refine ⟨?_, hf.nodup, ?_⟩
+      · intro t2 ha
+        rw [Sys.withG_th] at ha ⊢
+        by_cases e : t2 = t
+        · subst e; rw [Sys.th_setTh_same] at ha; cases ha
+        · rw [Sys.th_setTh_other _ _ _ _ e] at ha ⊢
+          exact hf.order t2 ha
+      · intro t2 ht2
+        rw [Sys.withG_th]
+        by_cases e : t2 = t
+        · subst e; rw [Sys.th_setTh_same]; exact hf.reg t2 ht2
+        · rw [Sys.th_setTh_other _ _ _ _ e]; exact hf.reg t2 ht2
     · intro w hw
       have e3 := Sys.setTh_flow w s1 t { s1.th t with guards := [], alive := false, pending := [] }
       have e4 := h.cons w hw
@@ -437,8 +719,9 @@ theorem Step.exitThread (s : Sys) (t : Nat) : Step s (s.exitThread t) := by
 section thenLemmas
 variable {s s1 : Sys}
 
-theorem Step.thenSetTh (h : Step s s1) (t : Nat) (th' : Th) (hp : th'.pending = (s1.th t).pending := by rfl) :
-    Step s (s1.setTh t th') := h.trans (Step.setTh t th' hp)
+theorem Step.thenSetTh (h : Step s s1) (t : Nat) (th' : Th) (hp : th'.pending = (s1.th t).pending := by rfl)
+    (ha : th'.alive = (s1.th t).alive := by rfl) (hr : th'.registered = (s1.th t).registered := by rfl) :
+    Step s (s1.setTh t th') := h.trans (Step.setTh t th' hp ha hr)
 theorem Step.thenPutCtr (h : Step s s1) (t : Nat) (c : Ctr) : Step s (s1.putCtr t c) := h.trans (Step.putCtr t c)
 theorem Step.thenSpans (h : Step s s1) (x : List (String × SpanVal)) : Step s { s1 with spans := x } :=
   h.trans (Step.withSpans x)
